@@ -71,6 +71,12 @@ def level(base, small, tier_deps=True):
         out.append(["union", b, c])
         out.append(["inter", b, c])
     out += [["hasmethod", "pm"], ["hasmethod", "nope"], ["lit", 0], ["lit", 0, 1], ["lit", "a"], ["lit", 1, 0], ["tuple"]]
+    # absorbing combinations: one constructed member covers the other
+    for a, b in (("K0", "K1"), ("K1", "K3"), ("O", "K4")):
+        for mk in (lambda x: ["type", x], lambda x: ["gen", "list", x], lambda x: ["tuple", x], lambda x: ["dep", x, "qa"]):
+            out.append(["union", mk(a), mk(b)])
+            out.append(["union", mk(b), mk(a)])
+            out.append(["inter", mk(a), mk(b)])
     return out
 
 
@@ -104,7 +110,12 @@ def universe(depth):
             continue
         seen.add(key)
         try:
-            raw = annot.annotate(s, CLASSES)
+            # built afresh (not through the annotation cache): a type that is a member of another one
+            # is then an equal but distinct object, as it is when users write the annotation twice
+            # (Dependent[...] creates a new, unequal type at every evaluation: those go through the cache)
+            # (so do Exactly / StrictSubclass / HasMethod, whose equality is identity of the handler)
+            ident = any(f'"{k}"' in key for k in ("dep", "exactly", "strict", "hasmethod"))
+            raw = annot.annotate(s, CLASSES) if ident else annot._annotate(s, CLASSES)
         except Exception as e:  # noqa
             out.append(("bad:" + key, s, e))
             continue
